@@ -607,7 +607,8 @@ fn on_batch(mut action: ActionHandler) -> (ActionHandler, u64, u32) {
                 }
                 Some((sig, grace)) => {
                     log(Ev::QuitReq { manner: "graceful", grace });
-                    action.quit_gracefully(Signal::from(sig), Duration::from_millis(grace));
+                    // (u64::MAX stands for Duration::MAX)
+                    action.quit_gracefully(Signal::from(sig), if grace == u64::MAX { Duration::MAX } else { Duration::from_millis(grace) });
                 }
             }
         }
